@@ -259,11 +259,21 @@ def translate(ctx):
     sources of the tree under test (files are rewritten only when their content changes, so an unchanged source costs no rebuild)."""
     from tools.translate import gen_conecyl_nl as G, gen_shell_jacobian as SJ
     ctx._nl = {}
-    for name, M in G.translate_all().items():
-        M2, bad, files = SJ.generate(name, M)
+    errors = []
+    for name in G.MODELS:
+        # the failing structural identities are recorded BEFORE the proof scripts are instantiated: should the instantiation refuse (a tie that
+        # fails "in an unexpected place"), the failing-input search still knows which identity of which kernel fails on the source as written
+        M = G.translate_model(name)
+        bad = SJ.failing_cases(M)
         ctx._nl[name] = (M, {k: sorted(v) for k, v in bad.items() if v})
+        try:
+            SJ.emit_files(M, bad)
+        except Exception as e:                              # noqa
+            errors.append('%s: %s' % (name, e))
     for name in ('FsdtDonnellBc1', 'FsdtDonnellBcn'):
         SJ.emit_fsdt_refutation(name)
+    if errors:
+        raise RuntimeError('; '.join(errors)[:1500])
     ctx.cov['nonlinear_kernels_translated'] = sorted(ctx._nl) + ['FsdtDonnellBc1 (IR + refutation)', 'FsdtDonnellBcn (IR + refutation)']
 
 
